@@ -175,3 +175,47 @@ func runReplayFile(repo, verifDir, file string) int {
 	}
 	return 1
 }
+
+// runCorpus applies every seeded change recorded for prop through an overlay and reports which ones the
+// quick check detects.
+func runCorpus(repo, verifDir, prop string) map[string]any {
+	dirs, _ := filepath.Glob(filepath.Join(verifDir, "seeded", "*"))
+	sort.Strings(dirs)
+	total, detected, oos, skipped := 0, 0, 0, 0
+	missed := []string{}
+	for _, d := range dirs {
+		var meta struct {
+			Property string `json:"property"`
+			Expected string `json:"expected"`
+		}
+		b, err := os.ReadFile(filepath.Join(d, "meta.json"))
+		if err != nil {
+			continue
+		}
+		json.Unmarshal(b, &meta)
+		if meta.Property != prop {
+			continue
+		}
+		total++
+		ov, err := overlayFromPatch(repo, filepath.Join(d, "patch.diff"))
+		if err != nil {
+			skipped++ // the tree has changed so that this seeded change no longer applies
+			continue
+		}
+		old := os.Stdout
+		null, _ := os.OpenFile(os.DevNull, os.O_WRONLY, 0)
+		os.Stdout = null
+		code := runCheck(repo, verifDir, CheckOpts{Prop: prop, Tier: "quick", TimeoutS: 20}, ov, false)
+		os.Stdout = old
+		null.Close()
+		switch {
+		case code != 0:
+			detected++
+		case meta.Expected == "missed-out-of-scope":
+			oos++
+		default:
+			missed = append(missed, filepath.Base(d))
+		}
+	}
+	return map[string]any{"total": total, "detected": detected, "out_of_scope": oos, "skipped": skipped, "missed": missed}
+}
